@@ -120,6 +120,7 @@ def scopes_for_owner(
 
     if isinstance(owner, WithStatement):
         env_scope: Scope | None = None
+        env_home: tuple[Scope, ...] | None = None
         environment = owner.environment
         if isinstance(environment, AttributeSet):
             env_scope = _scope_from_attrset(environment, base=tuple(scopes))
@@ -134,7 +135,11 @@ def scopes_for_owner(
                         raise
                     resolved_env = None
                 if isinstance(resolved_env, AttributeSet):
-                    env_scope = _scope_from_attrset(resolved_env, base=tuple(scopes))
+                    defined_in = _get_context(resolved_env)
+                    env_home = (
+                        defined_in.scopes if defined_in is not None else tuple(scopes)
+                    )
+                    env_scope = _scope_from_attrset(resolved_env, base=env_home)
                 elif strict:
                     raise ResolutionError(
                         "with environment must resolve to an attribute set"
@@ -147,6 +152,7 @@ def scopes_for_owner(
             weak_scope = Scope(env_scope, owner=env_scope.owner)
             weak_scope.weak = True
             weak_scope.lexical = env_scope.lexical
+            weak_scope.home = env_home
             scopes.append(weak_scope)
 
     from nix_manipulator.expressions.function.call import FunctionCall  # type: ignore
